@@ -39,7 +39,7 @@ def gen_cases(ctx, n):
         chunks = fg.chunk(r, data)
         if not chunks:
             continue
-        cases.append(f'{role} {framing} {r.choice(levels)} ' + ' '.join(fg.hexs(c) for c in chunks))
+        cases.append(f'{role} {framing} {r.choice(levels)} ' + ' '.join(fg.tokens(r, role, chunks)))
     return cases
 
 
@@ -108,6 +108,10 @@ def run(ctx):
         if o.startswith('ok'):
             kv = dict(x.split('=', 1) for x in o.split()[1:])
             cls = f'{role}/{framing}/end={kv["end"]}'
+            if '@W' in c:
+                classes['scripted-transmit-side'] = classes.get('scripted-transmit-side', 0) + 1
+                if '@Wb' in c and '@R' not in c:
+                    classes['write-parked-at-the-end'] = classes.get('write-parked-at-the-end', 0) + 1
             classes[cls] = classes.get(cls, 0) + 1
             problem = None
             if kv.get('shutdown_ok') != '1':
@@ -134,7 +138,7 @@ def run(ctx):
     ctx.coverage.update({
         'evaluations': len(cases),
         'distinct_nontrivial': len(set(c for c in cases if len(c.split()) >= 4 and len(''.join(c.split()[3:])) >= 16)),
-        'rule': 'streams = concatenations of valid / mutated / badly framed Modbus frames or raw random bytes, cut into read chunks (all-at-once, byte-per-byte, random, header-edge, 260-byte-buffer-edge), x role x framing x decode level; non-trivial = at least 8 stream bytes; distinct by full case text',
+        'rule': 'streams = concatenations of valid / mutated / badly framed Modbus frames or raw random bytes, cut into read chunks (all-at-once, byte-per-byte, random, header-edge, 260-byte-buffer-edge), a quarter with a scripted transmit side (writes taken in pieces / parked as by a peer that does not read, released or not), x role x framing x decode level; non-trivial = at least 8 stream bytes; distinct by full case text',
         'samples': [[c[:200], o] for c, o in list(zip(cases, out))[:5]],
         'input_classes': classes,
         'levels': LEVELS_QUICK if ctx.quick() else 'all 36',
@@ -163,10 +167,10 @@ def shrink_case(ctx, case):
         for i in range(len(ch)):
             if len(ch) > 1:
                 yield ' '.join(h + ch[:i] + ch[i + 1:])
-        if len(ch) > 1:
+        if len(ch) > 1 and not any(x.startswith('@') for x in ch):
             yield ' '.join(h + [''.join(ch)])
         for i in range(len(ch)):
-            if len(ch[i]) > 4:
+            if len(ch[i]) > 4 and not ch[i].startswith('@'):
                 yield ' '.join(h + ch[:i] + [ch[i][:len(ch[i]) // 4 * 2]] + ch[i + 1:])
                 yield ' '.join(h + ch[:i] + [ch[i][len(ch[i]) // 4 * 2:]] + ch[i + 1:])
         if h[2] != '000':
